@@ -259,6 +259,9 @@ func (s *Server) processMsgNextHop(
 				return nil, netip.AddrPort{}, nil
 			}
 			s.outBuffer.PushLayer(s.e2e.LayerType())
+			// The end-to-end extension goes back with the reply: it sits between the SCION
+			// header and the SCMP header.
+			s.scionLayer.NextHdr = slayers.End2EndClass
 		}
 		err = s.scionLayer.SerializeTo(s.outBuffer, s.options)
 		if err != nil {
@@ -323,6 +326,8 @@ func (s *Server) reverseSCION() error {
 	if s.scionLayer.Path, err = s.scionLayer.Path.Reverse(); err != nil {
 		return serrors.Wrap("reversing path", err)
 	}
+	// Reversing may change the path type (a one-hop path reverses into a SCION path).
+	s.scionLayer.PathType = s.scionLayer.Path.Type()
 	return nil
 }
 
